@@ -4,6 +4,7 @@ import (
 	"fmt"
 	"go/token"
 	"go/types"
+	"strings"
 
 	"golang.org/x/tools/go/ssa"
 )
@@ -28,6 +29,8 @@ func runC11(c *Ctx) {
 	c.importRules(runC20, "C20", map[string]string{"samemux": "samemux"})
 	// a weighted answer served from the cache is one sample replayed: the cache may hold it only under the explicit WRS timeout
 	c.importRules(runC12, "C12", map[string]string{"weighted": "cache-weighted"})
+	// the candidates are the records visible to the client: its location's AND the untagged ones (seed c11g)
+	c.importRules(runC04, "C04", map[string]string{"untagged": "candidates-untagged"})
 }
 
 func c11Bounded(c *Ctx) {
@@ -172,6 +175,42 @@ func c11Rand(c *Ctx) {
 	rule := "C11.rand"
 	c.Rule(rule, "A1+A8: lockedSource.src is only used under lockedSource.lk; the package generator is the result of NewRand() (a rand.New over a lockedSource) and is assigned nowhere else; no function of the module calls (*rand.Rand).Seed or (*rand.Rand).Read (state kept outside the source)")
 	c.locksetRows(rule, func(r lockRow) bool { return r.Type == "lockedSource" })
+	// every draw advances the generator's state: a method invoked on the wrapped source needs the lock held for
+	// WRITING — a shared (read) lock lets two draws interleave and lose or repeat state (seed c11e)
+	{
+		srcField := c.FieldOpt("db", "lockedSource", "src")
+		if srcField == nil {
+			// the wrapped source by type: the field of interface type rand.Source / rand.Source64
+			st := structOf(c.Named("db", "lockedSource"))
+			for i := 0; st != nil && i < st.NumFields(); i++ {
+				if strings.HasPrefix(st.Field(i).Type().String(), "math/rand.Source") {
+					srcField = st.Field(i)
+				}
+			}
+		}
+		mu := "." + c.mutexName("db", "lockedSource", "lk")
+		n := 0
+		for _, fn := range c.OurFuncs("db") {
+			for _, ci := range callInstrs(fn) {
+				cc := ci.Common()
+				if !cc.IsInvoke() || srcField == nil || !isFieldLoad(cc.Value, srcField) {
+					continue
+				}
+				n++
+				c.Examined(fn)
+				held := false
+				for p, m := range computeLockset(fn).At(ci) {
+					if m == modeW && strings.HasSuffix(p, mu) {
+						held = true
+					}
+				}
+				c.Check(rule, fmt.Sprintf("%s|%s-on-source|write-locked", fnName(fn), cc.Method.Name()), held, ci.Pos(), "a call on the shared generator source mutates it: the exclusive lock must be held")
+			}
+		}
+		if n == 0 {
+			c.Undecided(rule, "lockedSource|draws", token.NoPos, "no method call on the wrapped source found")
+		}
+	}
 	// localRand assigned only from NewRand in package init
 	sp := c.SSAPkgs["db"]
 	g, _ := sp.Members["localRand"].(*ssa.Global)
